@@ -11,6 +11,7 @@ fn once(case: &Value, run: &Run) -> Acc {
         "parse" | "parse-eval" => crate::checks::lang::replay(case, run),
         "ladder" => crate::checks::robust::replay_ladder(case, run),
         "built-index" | "built-slice" => crate::checks::robust::replay_built(case, run),
+        "ref" | "ref-history" => crate::checks::refs::replay(case, run),
         "ext" => crate::checks::ext::replay(case, run),
         "query-plain" => crate::checks::common::replay_plain(case, run),
         k => {
